@@ -43,6 +43,12 @@ TABLE = {
                                "skip_chars_only_chars_text", "consume_chars_only_chars", "ok_tags_balanced", "ok_reserved_names",
                                "ok_element_prefix_not_xmlns", "find_entity_first", "ok_refs_defined", "ok_refs_defined_first",
                                "ok_document_shape", "ok_no_text_before_root"], "Local Notation token := Tokenizer.token.")]),
+ "C03": dict(
+   intro="C03 -- elements, comments and PIs mirror the document's logical structure.  Lexer post-conditions\n   (with a token recorder as callback): a comment token's text is exactly the source between '<!--' and\n   '-->'; a PI's target and value are the source strings (value without leading whitespace, None when\n   empty); CDATA / text tokens are their source slices; the DOCTYPE and the prolog / epilog deliver only\n   comments, PIs (and entity declarations); a start tag delivers ElementStart, attributes, one ElementEnd.\n   The XML declaration has no callback at all.  Document-level token shape: Proofs/RejectProofs.v.\n   The composition 'rendering of an abstract document parses to its tree' is not proved (correspondence).",
+   imports=["From RX.Proofs Require Import LexerProofs RejectProofs."],
+   groups=[("LexerProofs.v", ["parse_comment_post", "parse_pi_post", "parse_cdata_post", "parse_text_post", "parse_close_element_post",
+                              "parse_doctype_tokens", "parse_misc_tokens", "parse_element_tokens"], "Local Notation token := Tokenizer.token.", "forall (text : bytes),"),
+           ("RejectProofs.v", ["ok_document_shape", "ok_no_text_before_root"], "Local Notation token := Tokenizer.token.")]),
  "C04": dict(
    intro="C04 -- character data is decoded per XML 1.0, one text node per run.\n   (1) the text machine (TextBuffer with the pending-CR flag, as driven by process_text) produces,\n   for every run of literal bytes and referenced characters, the decoding of Spec/Text.v; a referenced\n   character never encodes to zero bytes (encode_utf8_nonempty); the same on the model's own loop;\n   (2) CDATA sections are normalised like literals; (3) any number of fragments of one run end up in\n   exactly one Text node holding their concatenation (after_text protocol).",
    imports=["From RX.Spec Require Import Text.", "From RX.Proofs Require Import TextMachine TextMerge."],
@@ -75,6 +81,11 @@ TABLE = {
    groups=[("LookupProofs.v", ["attribute_node_first_match", "has_attribute_iff", "attribute_is_value_of_node", "bare_name_no_namespace",
                                "has_tag_name_spec", "has_tag_name_non_element", "lookup_namespace_uri_first", "default_namespace_is_lookup_none",
                                "lookup_prefix_xml", "lookup_prefix_first", "attr_eqb_spec"])]),
+ "C13": dict(
+   intro="C13 -- source ranges designate the construct they belong to.  Shape clauses, from the lexer\n   post-conditions: the range of a comment token is exactly '<!--' text '-->', of a PI token '<?' target ...\n   '?>', a start tag runs from '<' to its '>' and the name follows the '<', an end tag from '</' to '>';\n   text / CDATA ranges are the token's source.  (The builder stores these token ranges; validity, nesting\n   and the shift relation are checked by the range oracle, not proved.)",
+   imports=["From RX.Proofs Require Import LexerProofs."],
+   groups=[("LexerProofs.v", ["parse_comment_post", "parse_pi_post", "parse_cdata_post", "parse_text_post", "parse_element_tokens",
+                              "parse_close_element_post"], "Local Notation token := Tokenizer.token.", "forall (text : bytes),")]),
  "C14": dict(
    intro="C14 -- text positions and error reports: text_pos_at is total on valid UTF-8, clamps, counts\n   rows by LF and columns in characters, stays in bounds and moves with inserted line breaks / spaces;\n   every Err returned by parse carries the position of an offset inside the input (or is one of the\n   seven position-less variants, which report 1:1), hence row / column are within the input.",
    imports=["From RX.Proofs Require Import PositionProofs ErrPosStream ErrPosTokenizer ErrPosParse."],
@@ -154,7 +165,10 @@ def gen(pid):
         if len(g) > 2:
             o.append("Module G%d.\n%s" % (gi, g[2]))
         for name in names:
-            o.append("Theorem %s_%s :\n  %s.\nProof. exact %s. Qed.\nPrint Assumptions %s_%s.\n" % (pid, name, stmt(path, name), name, pid, name))
+            st = stmt(path, name)
+            if len(g) > 3:
+                st = g[3] + " " + st          # the statement is inside a Section: its variables become binders
+            o.append("Theorem %s_%s :\n  %s.\nProof. exact %s. Qed.\nPrint Assumptions %s_%s.\n" % (pid, name, st, name, pid, name))
             n += 1
         if len(g) > 2:
             o.append("End G%d.\n" % gi)
